@@ -605,6 +605,34 @@ impl Glob {
     }
 }
 
+#[cfg(ripgrep_verif)]
+impl Glob {
+    /// Verification hook: the match strategy a `GlobSet` selects for this
+    /// glob, as an s-expression `(tag (code points of the literal) component)`
+    /// where the tag is 0 for a whole-path literal, 1 for a basename literal,
+    /// 2 for an extension, 3 for a prefix, 4 for a suffix, 5 for a required
+    /// extension and 6 for the regex fallback.
+    pub fn verif_strategy(&self) -> String {
+        let (tag, lit, component) = match MatchStrategy::new(self) {
+            MatchStrategy::Literal(lit) => (0, lit, false),
+            MatchStrategy::BasenameLiteral(lit) => (1, lit, false),
+            MatchStrategy::Extension(ext) => (2, ext, false),
+            MatchStrategy::Prefix(prefix) => (3, prefix, false),
+            MatchStrategy::Suffix { suffix, component } => {
+                (4, suffix, component)
+            }
+            MatchStrategy::RequiredExtension(ext) => (5, ext, false),
+            MatchStrategy::Regex => (6, String::new(), false),
+        };
+        let mut out = format!("({} (", tag);
+        for c in lit.chars() {
+            write!(out, "{} ", u32::from(c)).unwrap();
+        }
+        write!(out, ") {})", u8::from(component)).unwrap();
+        out
+    }
+}
+
 impl<'a> GlobBuilder<'a> {
     /// Create a new builder for the pattern given.
     ///
